@@ -625,6 +625,72 @@ def check_ancestor_chain(ctx, d) -> None:
     ctx.floor(rule, len(read), 1, "containers read by the cycle detector")
 
 
+def check_recorded_errors_are_read(ctx, d) -> None:
+    """R17: a constructor that records an error into a list PARAMETER after it stored that list on the object relies on the attribute being
+    the same list.  When the attribute is a copy (list(P), P[:], copy) - or not stored at all - and every caller throws its own list away
+    after the call (a literal, or a local it never reads again), the error is recorded where nobody reads it: the invalid namespace is
+    accepted.  (ComponentFlowIR: 'Replicating components cannot define a parameter called "replica"'.)"""
+    RID = "C06.R17-recorded-errors-are-read"
+
+    def builds_error(e: ast.AST) -> bool:
+        return any(isinstance(x, ast.Call) and (call_name(x) or "").split(".")[-1].endswith(("Error", "Exception")) for x in ast.walk(e))
+    n_sinks = 0
+    for cname, cls in d.classes.items():
+        init = next((f for f in cls.body if isinstance(f, ast.FunctionDef) and f.name == "__init__"), None)
+        if init is None:
+            continue
+        params = [a.arg for a in init.args.args[1:]] + [a.arg for a in init.args.kwonlyargs]
+        for P in params:
+            recs = [c for c in source.calls_in(init, include_nested=False) if last_attr(c) in ("append", "extend", "insert")
+                    and isinstance(c.func.value, ast.Name) and c.func.value.id == P and c.args and builds_error(c.args[-1])]
+            if not recs:
+                continue
+            n_sinks += 1
+            ctx.analysed(init)
+            rebinds = [n for n in source.walk_own(init) if isinstance(n, ast.Assign) and any(isinstance(t, ast.Name) and t.id == P for t in n.targets)]
+            aliased = not rebinds and any(isinstance(n, ast.Assign) and isinstance(n.value, ast.Name) and n.value.id == P and any(
+                isinstance(t, ast.Attribute) and isinstance(t.value, ast.Name) and t.value.id == "self" for t in n.targets)
+                for n in source.walk_own(init))
+            if aliased:
+                ctx.ob(RID, recs[0], True, "%s.__init__ records errors into '%s', which the object keeps as it is (same list)" % (cname, P),
+                       construct="%s.__init__: errors recorded into %s are kept by the object" % (cname, P))
+                continue
+            # not kept as it is: does any caller read its own list after the call?
+            live = False
+            n_calls = 0
+            for q, f in d.functions.items():
+                calls = [c for c in source.calls_in(f, include_nested=False) if (call_name(c) or "").split(".")[-1] == cname.split(".")[-1]]
+                if not calls:
+                    continue
+                cfg = CFG(f)
+                for c in calls:
+                    n_calls += 1
+                    arg = next((k.value for k in c.keywords if k.arg == P), None)
+                    if arg is None and params.index(P) < len(c.args):
+                        arg = c.args[params.index(P)]
+                    if not isinstance(arg, ast.Name):
+                        continue
+                    node = next((n for n in cfg.nodes if n.ast is not None and any(c is x for x in ast.walk(n.ast))), None)
+                    if node is None:
+                        live = True
+                        continue
+                    after = cfg.reach([node], include_starts=False)
+                    for n in cfg.nodes:
+                        if n.id in after and n.ast is not None and n is not node and any(
+                                isinstance(x, ast.Name) and x.id == arg.id and isinstance(x.ctx, ast.Load) for x in ast.walk(n.ast)):
+                            live = True
+            ok = live or n_calls == 0
+            ctx.ob(RID, recs[0], ok,
+                   "%s.__init__ records errors into '%s' and a caller reads that list after the call" % (cname, P) if ok else
+                   "%s.__init__ records an error into its parameter '%s' (%s) but keeps only a copy of / nothing of that list on the object, and "
+                   "every caller drops its own list after the call: the error is recorded where nobody reads it, so an invalid namespace - a "
+                   "replicating component that declares a parameter called \"replica\" - is accepted and its %%(replica)s stays unresolved"
+                   % (cname, P, short(recs[0], 60)),
+                   construct="%s.__init__: errors recorded into %s are kept by the object" % (cname, P))
+    ctx.ob(RID, d.tree, True, "%d constructors of dsl.py record errors into a list parameter (the pattern may legitimately disappear)" % n_sinks,
+           construct="constructors of dsl.py recording errors into a parameter", trivial=True)
+
+
 def run(ctx) -> None:
     ctx.explanation = (
         "Rejection clause and structural parts of the DSL 2.0 compiler: explicit-raise escape analysis of "
@@ -666,6 +732,8 @@ def run(ctx) -> None:
              "sub-patterns: text that exists only at run time is matched literally")
     ctx.rule("C06.R16-user-variables-override-the-entrypoint", "DSLExperimentConfiguration builds the entrypoint overrides as the entrypoint's own arguments "
              "followed by the user's variables (last update / last '**'): a value from a variable file wins over an argument the entrypoint sets")
+    ctx.rule("C06.R17-recorded-errors-are-read", "a constructor of dsl.py that records an error into a list parameter keeps that very list on the object "
+             "(or a caller reads its list afterwards): an error must not be recorded into a list that is thrown away")
     ctx.rule("C06.R4-unique-names", "component names are numbered over the ordered components and every name is checked against the names already used")
     ctx.assume("implicit exceptions (KeyError, pydantic internals) are outside the model; FlowIRConcrete mutators called on the freshly built "
                "description are assumed not to raise except FlowIRComponentExists, which R4 excludes")
@@ -909,6 +977,7 @@ def run(ctx) -> None:
     check_literal_text_in_patterns(ctx, d)
     check_user_variables_override_entrypoint(ctx)
     check_producer_walk_terminates(ctx, d)
+    check_recorded_errors_are_read(ctx, d)
 
     # ---------------- R6 -------------------------------------------------------------------------------
     sp = d.func("OutputReference.split")
